@@ -20,8 +20,8 @@ package utils
 import (
 	"fmt"
 	"math"
-	"regexp"
 	"sort"
+	"strings"
 
 	"github.com/prometheus/prometheus/promql/parser"
 	"github.com/siglens/siglens/pkg/segment/structs"
@@ -208,27 +208,26 @@ func ExtractMatchingLabelSet(groupIDStr string, matchingLabels []string, include
 
 	labelKeysToValuesMap := make(map[string]string)
 
-	re := regexp.MustCompile(`(.*)\{(.*)`)
-
-	labelSetStr := ""
-	match := re.FindStringSubmatch(groupIDStr)
-	if len(match) == 3 {
-		labelSetStr = match[2]
-	} else {
+	// The labels follow the first "{": a metric name cannot contain one, a label value can.
+	idx := strings.Index(groupIDStr, "{")
+	if idx < 0 {
 		return groupIDStr
 	}
+	labelSetStr := groupIDStr[idx+1:]
+	if strings.HasSuffix(labelSetStr, ",") {
+		labelSetStr = strings.TrimSuffix(labelSetStr, ",")
+	} else if strings.HasSuffix(labelSetStr, "}") && strings.Count(groupIDStr, "{") == strings.Count(groupIDStr, "}") {
+		// the id was written with a closing brace
+		labelSetStr = strings.TrimSuffix(labelSetStr, "}")
+	}
 
-	re = regexp.MustCompile(`\s*([\w\s]+):\s*([\w\s]+)`)
-
-	matches := re.FindAllStringSubmatch(labelSetStr, -1)
-	for _, match := range matches {
-		if len(match) == 3 {
-			labelKey := match[1]
-			labelVal := match[2]
-			labelKeysToValuesMap[labelKey] = labelVal
-		} else {
-			log.Errorf("ExtractMatchingLabelSet: can not correctly extract tags from labelStr: %v", labelSetStr)
+	// A label is written as key:value. The value is taken as it is, whatever characters it contains.
+	for _, label := range strings.Split(labelSetStr, ",") {
+		labelKey, labelVal, found := strings.Cut(label, ":")
+		if !found {
+			continue
 		}
+		labelKeysToValuesMap[labelKey] = labelVal
 	}
 
 	matchingLabelValStr := ""
